@@ -105,7 +105,7 @@ CHECKS.update({
  "C04": ("exploration",
          "deterministic simulation: FIC programs and direct calls exercising staking/distribution precompile methods under every identity relation, with a seeded grant life cycle (approve / increase / decrease / revoke, limited and unlimited, several message types) and spends through contracts incl. re-entrancy and frame failures; non-interference + grant-gate + allowance-arithmetic oracle from pre/post state",
          "For every account that is neither the signer nor the immediate caller of a committed state-changing precompile call: delegations, unbondings, redelegations, withdraw address and grants-as-granter unchanged and balance not decreased. A staking spend committed by a contract requires a grant from the signer to that contract in the pre-state covering type and amount; and, when the grant names validators, the validator the message is checked against; afterwards a limited grant is reduced by exactly the amounts used (deleted at zero, never exceeded); approve/increase/decrease/revoke set exactly the stated allowance.",
-         "Effects that survive a failed frame (finding C05-001) are attributed to C05 and skipped here; ICS-20 grants not exercised at this commit; expiry by clock jump not yet generated.",
+         "Effects that survive a failed frame (finding C05-001) are attributed to C05 and skipped here; ICS-20 allocations (grants of the ics20 precompile) are not exercised; clock jumps of more than a year make every allowance expire in some runs (an expired grant is no grant in the pre-state, so a spend under it is reported).",
          "DESIGN.md §4 C04"),
  "C05": ("exploration",
          "deterministic simulation with frame-failure injection: for every sampled FIC program the block boundary is forked twice; fork A runs the program, fork B runs it with every frame that failed in A replaced by a stub that fails without doing anything; per-store content, logs and outcome compared (pruned-program fork differential); regimes with disposable self-destructing contracts and with few storage keys/values (frames restore each other's and the committed values)",
